@@ -73,6 +73,9 @@ def run(chk):
         "lendiff": lambda a, b: abs(len(a) - len(b)),
         "ham+len": lambda a, b: sum(x != y for x, y in zip(a, b)) + 3 * abs(len(a) - len(b)),
         "mix": lambda a, b: abs(len(a) - len(b)) + 0.25 * levd(a, b),
+        # values that land a shade ABOVE a round radius: 0.1 + 0.1 + 0.1 = 0.30000000000000004 > 0.3, 1.000001 > 1
+        "tenths": lambda a, b: sum(0.1 for _ in range(levd(a, b))),
+        "shade-over": lambda a, b: levd(a, b) * 1.000001,
     }
     mcds = [0, 0.5, 1, 2, 10, None]
     pool = gen.all_strings("ACD", 3)
@@ -109,6 +112,13 @@ def run(chk):
             for mcd in (None, 5, 1):
                 add("corner", xs, 1, dname, mcd)
                 add("corner", xs, 2, dname, mcd)
+    # every run: pairs whose custom distance lies a shade above the radius ("at most max_custom_distance" is an exact comparison)
+    for xs in corner + [["CAAA", "CDDA", "CDDD", "CADA"], ["ACD", "CDA", "DAC", "AAA", "ACA"]]:
+        add("near-radius", xs, 3, "tenths", 0.3)
+        add("near-radius", xs, 2, "tenths", 0.2)
+        add("near-radius", xs, 2, "shade-over", 1)
+        add("near-radius", xs, 2, "shade-over", 2)
+        add("near-radius", xs, 2, "shade-over", 1, qs=["CADD", "AC", "ACD"])
     for _ in range(60 if not thorough else 600):
         xs = gen.sub_collection(rng, pool, rng.randint(2, 12))
         add("E(ACD)", xs, rng.randint(1, 3), rng.choice(list(dists)), rng.choice(mcds))
@@ -132,6 +142,33 @@ def run(chk):
         b2.add("kdtree-custom-parallel|R", lambda xs_p=xs_p, ncpu=ncpu, mcd=mcd: nn.kdtree(xs_p, max_edits=2, custom_distance=halfd, max_custom_distance=mcd, n_cpu=ncpu),
                None, sop, {"xs": xs_p, "k": 2, "n_cpu": ncpu, "max_custom_distance": mcd, "distance": "lev/2 + |len diff|/4"})
         b2.run()
+    # a few hundred sequences in dense one-substitution families (many pairs EXACTLY on the kd-tree radius, spread over many tree
+    # nodes) with a real-valued custom distance, every engine against the brute-force definition
+    fam_roots = [gen.repertoire(rng, 1, minlen=6, maxlen=9, allow_empty=False)[0] for _ in range(14)]
+    fxs = []
+    for r_ in fam_roots:
+        fxs.append(r_)
+        for _ in range(rng.randint(12, 22)):
+            fxs.append(gen.mutate(rng, r_, AA, rng.choice([1, 1, 1, 2])) or r_)
+    rng.shuffle(fxs)
+    halfm = lambda a_, b_: levd(a_, b_) / 2 + 0.25 * abs(len(a_) - len(b_))  # noqa: E731
+    for kf, mcdf in ((1, 0.75), (2, 1.0)):
+        wantf = sorted((i, j, halfm(fxs[i], fxs[j])) for i in range(len(fxs)) for j in range(len(fxs))
+                       if i != j and levd(fxs[i], fxs[j]) <= kf and halfm(fxs[i], fxs[j]) <= mcdf)
+        for name, fn in (("kdtree", lambda: nn.kdtree(fxs, max_edits=kf, custom_distance=halfm, max_custom_distance=mcdf)),
+                         ("kdtree-compressed", lambda: nn.kdtree(fxs, max_edits=kf, custom_distance=halfm, max_custom_distance=mcdf, compression=3)),
+                         ("symdel", lambda: nn.symdel(fxs, max_edits=kf, custom_distance=halfm, max_custom_distance=mcdf))) + \
+                ((("hash_based", lambda: nn.hash_based(fxs, max_edits=kf, custom_distance=halfm, max_custom_distance=mcdf)),) if kf == 1 else ()):
+            rr = core.call_real(lambda: sorted((int(a_), int(b_), float(d_)) for a_, b_, d_ in fn()))
+            chk.case(nontrivial_key=("families-custom", name, kf))
+            chk.count("families-custom")
+            if rr[0] != "ok" or rr[1] != wantf:
+                got_ = set(rr[1]) if rr[0] == "ok" else set()
+                miss_, extra_ = sorted(set(wantf) - got_), sorted(got_ - set(wantf))
+                chk.violation(f"C14|{name}-custom|families|{'raises' if rr[0] != 'ok' else ('missing' if miss_ else 'spurious')}",
+                              f"{name} with a custom distance on {len(fxs)} sequences in one-substitution families, max_edits={kf}, max_custom_distance={mcdf}: "
+                              f"{len(miss_)} pairs inside both radii missing, {len(extra_)} reported pairs outside; {str(rr)[:80] if rr[0] != 'ok' else ''}",
+                              {"xs": fxs, "k": kf, "mcd": mcdf, "dist": "lev/2 + |len diff|/4", "missing": miss_[:10], "spurious": extra_[:10]})
     # more than 46341 sequences with a callable custom distance (position products beyond 2^31): planted pairs at late positions
     from Levenshtein import distance as _levd
     nbig = 47011 if not thorough else 60001
@@ -274,7 +311,8 @@ def replay(path):
         dists = {"lev": lambda a, b: levd(a, b), "10lev": lambda a, b: 10 * levd(a, b), "lev/2": lambda a, b: levd(a, b) / 2,
                  "lendiff": lambda a, b: abs(len(a) - len(b)),
                  "ham+len": lambda a, b: sum(x != y for x, y in zip(a, b)) + 3 * abs(len(a) - len(b)),
-                 "mix": lambda a, b: abs(len(a) - len(b)) + 0.25 * levd(a, b)}
+                 "mix": lambda a, b: abs(len(a) - len(b)) + 0.25 * levd(a, b),
+                 "tenths": lambda a, b: sum(0.1 for _ in range(levd(a, b))), "shade-over": lambda a, b: levd(a, b) * 1.000001}
         fn = dists[meta["dist"]]
         xs, k, mcd = meta["xs"], meta["k"], meta["mcd"]
         fields = search.score_fields("custom", k, xs, fn, mcd)
